@@ -24,6 +24,18 @@ func (m *machine) registerReplacements() {
 		"github.com/ipfs/go-libipfs/files.NewBytesFile": "NewMemFile",
 		"github.com/ipfs/boxo/files.NewBytesFile":       "NewMemFile",
 
+		"crypto/sha256.New":    "NewSha256",
+		"crypto/sha256.Sum256": "Sum256",
+		"crypto/sha1.New":      "NewSha1",
+		"crypto/sha1.Sum":      "Sum1",
+		"crypto/sha512.New":    "NewSha512",
+		"crypto/md5.New":       "NewMd5",
+		"crypto/md5.Sum":       "SumMd5",
+		"hash/fnv.New32":       "NewFnv32",
+		"hash/fnv.New32a":      "NewFnv32",
+		"hash/fnv.New64":       "NewFnv64",
+		"hash/fnv.New64a":      "NewFnv64",
+
 		"context.Background":  "CtxBackground",
 		"context.TODO":        "CtxBackground",
 		"context.WithCancel":  "CtxWithCancel",
